@@ -103,6 +103,13 @@ impl Engine for FaultEngine {
         knobs.insert("rate".into(), *c.pick(&[10i64, 40, 120]));
         knobs.insert("read_faults".into(), c.chance(1, 3) as i64);
         let _ = property;
+        // "second flusher" family (own tape): another application thread calls flush() back to back
+        // while the workload runs, so that two flush requests can be queued at one worker when the
+        // device fails; every one of its calls has to return, and its Ok answers are acknowledgements too
+        let mut f2 = Tape::fresh(mix(seed, 0xF2F2));
+        if f2.chance(1, 4) {
+            knobs.insert("flusher2".into(), 3 + f2.below(8) as i64);
+        }
         // "burst" family (own tape): one shard receives more entries than fit into one journal
         // transaction (1024), so a drain is written in several batches; the fault lands in one of
         // them, the untouched rest of the drain must still reach the device once it works again
@@ -355,12 +362,37 @@ fn run_once(sim: &Arc<Sim>, sc: &Scenario, plan: Option<FaultPlan>, report: &mut
     let mut resolver = Resolver { keys: &sc.keys, writer: 0, counter: 0, format: sc.store.format };
     let mut hist: BTreeMap<Vec<u8>, Vec<Trans>> = BTreeMap::new();
     let mut acks: Vec<(u64, u64)> = Vec::new();
+    // second flusher (see generate): flush() calls from another application thread
+    let acks2: Arc<std::sync::Mutex<Vec<(u64, u64)>>> = Arc::new(std::sync::Mutex::new(Vec::new()));
+    let mut flusher2 = None;
+    let rounds2 = sc.knob("flusher2", 0);
+    if rounds2 > 0 && sc.knob("burst", 0) == 0 {
+        let (sim2, store2, acks2b) = (Arc::clone(sim), Arc::clone(env.st()), Arc::clone(&acks2));
+        let seed2 = mix(sc.seed, 0x2F2F);
+        feoxdb::verif::thread::name_next_spawn("client");
+        flusher2 = Some(feoxdb::verif::thread::spawn(move || {
+            let mut t = Tape::fresh(seed2);
+            for _ in 0..rounds2 {
+                sim2.sleep(Duration::from_micros(*t.pick(&[0u64, 50, 400, 3_000, 40_000])));
+                let invoke = sim2.next_event();
+                sim2.op_begin("flush");
+                let r = store2.flush();
+                sim2.op_end();
+                if r.is_ok() {
+                    acks2b.lock().unwrap().push((invoke, sim2.next_event()));
+                }
+            }
+        }));
+    }
     let mut poisoned = false;
     let mut image_checks = 0;
 
     macro_rules! bail {
         ($rule:expr, $detail:expr) => {{
             report.fail($rule, format!("[{plan_label}] {}", $detail));
+            if let Some(h) = flusher2.take() {
+                let _ = h.join();
+            }
             drop(resolver);
             report.disk = disk.stats();
             env.cleanup();
@@ -478,6 +510,13 @@ fn run_once(sim: &Arc<Sim>, sc: &Scenario, plan: Option<FaultPlan>, report: &mut
         }
     }
 
+    if let Some(h) = flusher2.take() {
+        let _ = h.join();
+        let mut more = acks2.lock().unwrap().clone();
+        report.count("second_flusher_acks", more.len() as u64);
+        acks.append(&mut more);
+        acks.sort();
+    }
     let dry = DryInfo {
         calls: disk.calls(),
         calls_after_open,
